@@ -19,6 +19,9 @@ def pre(xs, b):
     return tuple(xs[:b])
 def srt(xs, a):
     return tuple(sorted(xs, reverse=True)) if a % 2 else tuple(sorted(xs))
+def srtlex(xs, a):
+    out = sorted((x % 3, i) for i, x in enumerate(xs) if x != a)
+    return tuple(i for _, i in out)
 def enum(xs, a):
     out = []
     for i, v in enumerate(xs, a):
@@ -49,6 +52,7 @@ for fn, args, ranges, ref in (
         ('sl', [a, b], lambda: [(aa, bb) for aa in range(-6, 7) for bb in range(-6, 7)], lambda l, aa, bb: l[aa:bb]),
         ('pre', [b], lambda: [(0, bb) for bb in range(-6, 7)], lambda l, aa, bb: l[:bb]),
         ('srt', [a], lambda: [(aa, 0) for aa in (0, 1)], lambda l, aa, bb: sorted(l, reverse=bool(aa % 2))),
+        ('srtlex', [a], lambda: [(aa, 0) for aa in (10, 11, 12, 99)], lambda l, aa, bb: [i for _, i in sorted((x % 3, i) for i, x in enumerate(l) if x != aa)]),
         ('enum', [a], lambda: [(aa, 0) for aa in range(-3, 4)], lambda l, aa, bb: [i * 100 + v for i, v in enumerate(l, aa)])):
     I = Interp(src)
     ctx = Ctx()
